@@ -60,7 +60,8 @@ RULE = (
     'order), plus direct add_branch/update_versions/_update_major_versions/'
     'finalize runs with every permutation of the branches when the subset '
     'has <= 4 names, otherwise identity, reverse and 6 seeded shuffles; tag '
-    'orders likewise (all permutations for <= 4 tags), paired cyclically '
+    'orders likewise (all permutations for <= 4 tags when the subset has '
+    '<= 4 names, else at most 8 orders), paired cyclically '
     'with the branch orders (not crossed: the add_branch phase leaves an '
     'order-independent state unless it raises).  validate() is called after '
     'every run on a fake repository in which every development branch '
@@ -344,11 +345,11 @@ def judge(acc, mode, names, tags, dst_name, exp):
     return got, ok
 
 
-def orders(items, rng):
+def orders(items, rng, full=True):
     """All permutations up to 4 items; otherwise identity, reverse and
     seeded shuffles (duplicates removed)."""
     items = list(items)
-    if len(items) <= 4:
+    if len(items) <= 2 or (full and len(items) <= 4):
         return [list(p) for p in itertools.permutations(items)]
     out = [items, items[::-1]]
     for _ in range(NSHUFFLES):
@@ -373,7 +374,7 @@ def run_subset(acc, idx, comb, seed, want_cat):
     rng = random.Random(seed * 1000003 + idx)
     b_orders = orders(comb, rng)
     for ti, tags in enumerate(TAGSETS):
-        t_orders = orders(tags, rng)
+        t_orders = orders(tags, rng, full=len(comb) <= 4)
         pairs = [(b_orders[i % len(b_orders)], t_orders[i % len(t_orders)])
                  for i in range(max(len(b_orders), len(t_orders)))]
         for dst_name in comb:
